@@ -687,6 +687,7 @@ public:
               J.attribute("local", VD->isStaticLocal());
               J.attribute("def", VD->isThisDeclarationADefinition() != VarDecl::DeclarationOnly);
               J.attribute("vol", VD->getType().isVolatileQualified());
+              J.attribute("tls", VD->getTLSKind() != VarDecl::TLS_None);
               J.attribute("atomic", VD->getType()->isAtomicType() ||
                                         Em.typeStr(VD->getType()).find("atomic") != std::string::npos);
               if (auto *CAT = Ctx.getAsConstantArrayType(VD->getType()))
